@@ -316,6 +316,34 @@ def run_case(ck, desc):
             else:
                 ck.violation("schedule-length-mismatch-rejected", {"schedule": label, "len_time": nt}, desc)
         ck.count("wrong_length_schedules_with_silent_surplus", len(variants))
+        # a schedule HELD BY THE OBJECT (the constructor's `pressure_fracface` may be an array - the library's own
+        # comparison plot passes it that way - or one left behind by an earlier scheduled run): its length is
+        # checked against the time grid like any other
+        if desc["cls"] == "single":
+            for L_ in sorted({2, 5, nt - 1, nt + 1, 2 * nt, 3 * nt + 7} - {1, nt, 0, -1}):
+                fresh, _, _, fluid_, _ = sim.build(dict(desc, reused=False))
+                held_ = type(fresh)(fresh.nx, np.full(L_, pf_), fresh.pressure_initial, fresh.fluid)
+                try:
+                    with np.errstate(all="ignore"), warnings.catch_warnings():
+                        warnings.simplefilter("ignore")
+                        held_.simulate(t.copy())
+                except Exception as e:  # noqa: BLE001
+                    ck.count(f"wrong_length_rejected.held_by_the_object.{type(e).__name__}")
+                else:
+                    ck.violation("schedule-length-mismatch-rejected", {"schedule": f"array of {L_} cells given to the constructor", "len_time": nt}, desc)
+            if nt >= 4:
+                fresh, _, _, _, _ = sim.build(dict(desc, reused=False))
+                with np.errstate(all="ignore"), warnings.catch_warnings():
+                    warnings.simplefilter("ignore")
+                    fresh.simulate(t.copy(), np.full(nt, pf_))
+                    for t_other in (t[: nt - 2].copy(), np.concatenate([t, t[-1] + (t[1:4] - t[0])])):
+                        try:
+                            fresh.simulate(t_other)
+                        except Exception as e:  # noqa: BLE001
+                            ck.count(f"wrong_length_rejected.left_by_an_earlier_run.{type(e).__name__}")
+                        else:
+                            if np.ndim(fresh.pressure_fracface) > 0 and len(np.atleast_1d(fresh.pressure_fracface)) not in (1, len(t_other)):
+                                ck.violation("schedule-length-mismatch-rejected", {"schedule": f"{nt} cells left behind by an earlier scheduled run", "len_time": int(len(t_other))}, desc)
         # a simulate that fails for another reason (schedule of the right length far off the table)
         # has not simulated anything either
         fresh, _, _, _, _ = sim.build(dict(desc, reused=False))
